@@ -202,6 +202,93 @@ def search_files_reply(ctx, mods, names):
     return n
 
 
+def search_connect_lookup(ctx, mods):
+    """the module lookup as the client really does it: the REAL GeckoAsyncSpa._connect, on the virtual loop, fed the spa's answers
+    (version, channel, and the FILES reply built and decoded by the real config-file handler) for every shipped cfg version and
+    every shipped log version of every platform; the tables it instantiates must be the shipped modules of exactly that
+    platform / version (the status block transfer is refused, so _connect stops right after the lookup)"""
+    import asyncio
+    import vloop
+    from geckolib.async_spa import GeckoAsyncSpa
+    from geckolib.async_tasks import AsyncTasks
+    from geckolib.driver import async_udp_protocol as aup
+    from geckolib.driver.protocol.configfile import GeckoConfigFileProtocolHandler
+    from geckolib.driver.protocol.version import GeckoVersionProtocolHandler
+    from geckolib.driver.protocol.getchannel import GeckoGetChannelProtocolHandler
+    import rig
+    plats = [m for m in mods if m["kind"] == "pack"]
+    jobs = []
+    for p in plats:
+        cfgs = [m["version"] for m in mods if m["kind"] == "cfg" and m["declPlatform"] == p["name"]]
+        logs = [m["version"] for m in mods if m["kind"] == "log" and m["declPlatform"] == p["name"]]
+        if not cfgs or not logs:
+            continue
+        for i in range(max(len(cfgs), len(logs))):
+            jobs.append((p["name"], cfgs[i % len(cfgs)], logs[i % len(logs)]))
+
+    async def body(loop):
+        out = []
+        orig_get = aup.GeckoAsyncUdpProtocol.get
+        sender = ("10.0.0.1", 10022, b"SPA01:02:03:04:05:06", b"IOSclient")
+        for name, c, l in jobs:
+            async def get(self, create_func, destination=None, retry_count=10, _j=(name, c, l)):
+                h = create_func()
+                if isinstance(h, GeckoVersionProtocolHandler):
+                    h.handle(GeckoVersionProtocolHandler.response((70, 14, 0), (69, 11, 0), parms=sender)._content, sender)
+                elif isinstance(h, GeckoGetChannelProtocolHandler):
+                    h.handle(GeckoGetChannelProtocolHandler.response(10, 33, parms=sender)._content, sender)
+                elif isinstance(h, GeckoConfigFileProtocolHandler):
+                    h.handle(GeckoConfigFileProtocolHandler.response(_j[0], _j[1], _j[2], parms=sender)._content, sender)
+                else:
+                    return None                      # pings, the status block: no answer
+                return h
+            events = []
+
+            async def on_event(ev, **kw):
+                events.append(str(ev).split(".")[-1])
+            tm = AsyncTasks()
+            spa = GeckoAsyncSpa(b"IOSclient", rig.Desc(), tm, on_event)
+            aup.GeckoAsyncUdpProtocol.get = get
+            rec = {"job": (name, c, l)}
+            try:
+                async def no_struct(*a, **k):
+                    return False
+                spa.struct.get = no_struct
+                await asyncio.wait_for(spa._connect(), 60)
+                rec["events"] = [e for e in events if e.startswith("CONNECTION_CANNOT") or e == "CONNECTION_INITIAL_DATA_BLOCK_REQUEST"]
+                rec["cfg"] = type(getattr(spa, "config_class", None)).__module__ if getattr(spa, "config_class", None) is not None else None
+                rec["log"] = type(getattr(spa, "log_class", None)).__module__ if getattr(spa, "log_class", None) is not None else None
+                rec["pack"] = type(getattr(spa, "pack_class", None)).__module__ if getattr(spa, "pack_class", None) is not None else None
+            except Exception as e:  # noqa
+                rec["raised"] = f"{type(e).__name__}: {e}"
+            finally:
+                aup.GeckoAsyncUdpProtocol.get = orig_get
+                for t in tm._tasks:
+                    t.cancel()
+                await asyncio.sleep(0)
+                try:
+                    await spa.disconnect()
+                except Exception:  # noqa
+                    pass
+            out.append(rec)
+        return out
+    try:
+        recs = vloop.run_virtual(body, seed=1)
+    except Exception as e:  # noqa
+        ctx.obligation_broken("harness:connect-lookup", f"{type(e).__name__}: {e}")
+        return 0
+    for r in recs:
+        name, c, l = r["job"]
+        low = name.lower()
+        want = {"pack": f"geckolib.driver.packs.{low}", "cfg": f"geckolib.driver.packs.{low}-cfg-{c}", "log": f"geckolib.driver.packs.{low}-log-{l}"}
+        got = {k: r.get(k) for k in ("pack", "cfg", "log")}
+        if r.get("raised") or got != want or r.get("events") != ["CONNECTION_INITIAL_DATA_BLOCK_REQUEST"]:
+            ctx.violation(f"connect-lookup:{name}:{c}:{l}", {"platform": name, "cfg": c, "log": l, "kind": "connect-lookup"},
+                          want, r.get("raised") or {"modules": got, "events": r.get("events")})
+    ctx.cov["connect_lookups"] = len(recs)
+    return len(recs)
+
+
 def run(ctx):
     st = translate.run(["Packs", "Pinned"])
     ctx.cov["translator"] = st
@@ -218,6 +305,7 @@ def run(ctx):
     search_pin(ctx, mods)
     search_effective_layout(ctx)
     n = search_files_reply(ctx, mods, names)
+    n += search_connect_lookup(ctx, mods)
     # the kernel evaluated one obligation per module (+ one pin equality per pinned module) on top of the property theorems
     per_module = len([m for m in mods if m["kind"] in ("cfg", "log", "pack")]) + len(packs.load_pin(PIN))
     if not ctx.broken:
@@ -242,6 +330,7 @@ def replay(inp):
     search_pin(ctx, mods)
     search_effective_layout(ctx)
     search_files_reply(ctx, mods, names)
+    search_connect_lookup(ctx, mods)
     for v in ctx.violations:
         if v["input"] == inp:
             return True, v["observed"]
